@@ -17,12 +17,14 @@ use tokio::sync::oneshot;
 use tracing::{debug, error, warn};
 use uuid::Uuid;
 
-use crate::bucket::event_index::ClosedEventIndex;
+use crate::bucket::event_index::{ClosedEventIndex, OpenEventIndex};
 use crate::bucket::iter::{PartitionIter, PartitionIterConfig, StreamIter, StreamIterConfig};
-use crate::bucket::partition_index::{ClosedPartitionIndex, PartitionIndexRecord};
+use crate::bucket::partition_index::{
+    ClosedPartitionIndex, OpenPartitionIndex, PartitionIndexRecord,
+};
 use crate::bucket::segment::{BucketSegmentReader, CommittedEvents, EventRecord};
-use crate::bucket::stream_index::{ClosedStreamIndex, StreamIndexRecord};
-use crate::bucket::{BucketId, BucketSegmentId, PartitionId, SegmentId};
+use crate::bucket::stream_index::{ClosedStreamIndex, OpenStreamIndex, StreamIndexRecord};
+use crate::bucket::{BucketId, BucketSegmentId, PartitionId, SegmentId, SegmentKind};
 use crate::cache::BLOCK_SIZE;
 use crate::error::{
     DatabaseError, EventValidationError, MetadataError, PartitionIndexError, ReadError,
@@ -666,19 +668,74 @@ impl DatabaseBuilder {
                 continue;
             };
 
-            let reader = BucketSegmentReader::open(events, None)?;
+            let mut reader = BucketSegmentReader::open(events, None)?;
 
-            let event_index = event_index
-                .map(|path| ClosedEventIndex::open(bucket_segment_id, path))
-                .transpose()?;
-            let partition_index = partition_index
-                .map(|path| ClosedPartitionIndex::open(bucket_segment_id, path))
-                .transpose()?;
-            let stream_index = stream_index
-                .map(|path| {
-                    ClosedStreamIndex::open(bucket_segment_id, path, self.segment_size_bytes)
-                })
-                .transpose()?;
+            // The index files of a sealed segment are written in the background after the
+            // rollover: after a crash they can be missing, empty or a prefix. Only a file with
+            // a completion trailer is trusted; otherwise the index is rebuilt from the segment.
+            let usable = |path: &Option<PathBuf>| {
+                path.as_deref().is_some_and(crate::bucket::index_file_is_complete)
+            };
+
+            let event_index = match &event_index {
+                Some(path) if usable(&event_index) => {
+                    ClosedEventIndex::open(bucket_segment_id, path).ok()
+                }
+                _ => None,
+            };
+            let event_index = match event_index {
+                Some(index) => index,
+                None => {
+                    let path = SegmentKind::EventIndex.get_path(&dir, bucket_segment_id);
+                    warn!("rebuilding event index of sealed segment {bucket_segment_id}");
+                    let mut index = OpenEventIndex::open(bucket_segment_id, &path)?;
+                    index.hydrate(&mut reader)?;
+                    index.flush()?;
+                    drop(index);
+                    ClosedEventIndex::open(bucket_segment_id, path)?
+                }
+            };
+
+            let partition_index = match &partition_index {
+                Some(path) if usable(&partition_index) => {
+                    ClosedPartitionIndex::open(bucket_segment_id, path).ok()
+                }
+                _ => None,
+            };
+            let partition_index = match partition_index {
+                Some(index) => index,
+                None => {
+                    let path = SegmentKind::PartitionIndex.get_path(&dir, bucket_segment_id);
+                    warn!("rebuilding partition index of sealed segment {bucket_segment_id}");
+                    let mut index = OpenPartitionIndex::open(bucket_segment_id, &path)?;
+                    index.hydrate(&mut reader)?;
+                    index.flush()?;
+                    drop(index);
+                    ClosedPartitionIndex::open(bucket_segment_id, path)?
+                }
+            };
+
+            let stream_index = match &stream_index {
+                Some(path) if usable(&stream_index) => {
+                    ClosedStreamIndex::open(bucket_segment_id, path, self.segment_size_bytes).ok()
+                }
+                _ => None,
+            };
+            let stream_index = match stream_index {
+                Some(index) => index,
+                None => {
+                    let path = SegmentKind::StreamIndex.get_path(&dir, bucket_segment_id);
+                    warn!("rebuilding stream index of sealed segment {bucket_segment_id}");
+                    let mut index =
+                        OpenStreamIndex::open(bucket_segment_id, &path, self.segment_size_bytes)?;
+                    index.hydrate(&mut reader)?;
+                    index.flush()?;
+                    drop(index);
+                    ClosedStreamIndex::open(bucket_segment_id, path, self.segment_size_bytes)?
+                }
+            };
+            let (event_index, partition_index, stream_index) =
+                (Some(event_index), Some(partition_index), Some(stream_index));
 
             reader_pool.add_bucket_segment(
                 bucket_segment_id,
